@@ -7,29 +7,41 @@ open Revm Revm.Model Revm.Model.Interp
 open Revm.Proofs.Memory (WF)
 
 theorem execInstr_good {s0 : IState} (hs : Start s0) (i : Instr) : Good s0 (execInstr i s0) := by
+  have hb := hs.toBase
+  have hN : ∀ s', Done1 s0 s' → Next s0 s' := fun _ h => Done1.next hs h
+  have hA : ∀ a s', ActRel s0 a s' → ActOk s0 a s' := fun _ _ h => ActRel.ok hs h
   unfold execInstr
   cases hp : execPure i with
   | some m => exact .pure (toDone_next (execPure_sat hs i m hp))
   | none =>
     cases i with
-    | keccak256 => exact keccak256I_good hs
-    | balance => exact balanceI_good hs
-    | selfbalance => exact selfbalanceI_good hs
-    | extcodesize => exact extcodesizeI_good hs
-    | extcodehash => exact extcodehashI_good hs
-    | extcodecopy => exact extcodecopyI_good hs
-    | blockhash => exact blockhashI_good hs
-    | sload => exact sloadI_good hs
-    | sstore => exact sstoreI_good hs
-    | tload => exact tloadI_good hs
-    | tstore => exact tstoreI_good hs
-    | log n => exact logI_good hs n.val
-    | selfdestruct => exact selfdestructI_good hs
-    | create c2 => exact .pure (toDoneAction_good hs (createI_sat hs c2))
-    | call => exact callI_good hs
-    | callcode => exact callcodeI_good hs
-    | delegatecall => exact delegatecallI_good hs
-    | staticcall => exact staticcallI_good hs
+    | keccak256 => exact keccak256I_good hb hN
+    | balance => exact balanceI_good hb hN
+    | selfbalance => exact selfbalanceI_good hb hN
+    | extcodesize => exact extcodesizeI_good hb hN
+    | extcodehash => exact extcodehashI_good hb hN
+    | extcodecopy => exact extcodecopyI_good hb hN
+    | blockhash => exact blockhashI_good hb hN
+    | sload => exact sloadI_good hb hN
+    | sstore => exact sstoreI_good hb hN
+    | tload => exact tloadI_good hb hN
+    | tstore => exact tstoreI_good hb hN
+    | log n => exact logI_good hb hN n.val
+    | selfdestruct => exact selfdestructI_good hb hN
+    | create c2 => exact .pure (toDoneAction_good hs (createI_sat hb c2))
+    | call => exact callI_good hb hA
+    | callcode => exact callcodeI_good hb hA
+    | delegatecall => exact delegatecallI_good hb hA
+    | staticcall => exact staticcallI_good hb hA
+    | eofcreate =>
+      exact hostCallAction_good hA _ _ (fun _ _ => False)
+        (by unfold eofcreatePre; exact eofGuard_sat hs _) (fun _ _ _ hf => hf.elim)
+    | extcall =>
+      exact hostCallOptAction_good hN hA _ _ (fun _ _ => False) (eofGuard_sat hs _) (fun _ _ _ hf => hf.elim)
+    | extdelegatecall =>
+      exact hostCallOptAction_good hN hA _ _ (fun _ _ => False) (eofGuard_sat hs _) (fun _ _ _ hf => hf.elim)
+    | extstaticcall =>
+      exact hostCallOptAction_good hN hA _ _ (fun _ _ => False) (eofGuard_sat hs _) (fun _ _ _ hf => hf.elim)
     | _ => simp [execPure] at hp
 
 /-! ## the invariant at instruction boundaries -/
@@ -77,8 +89,8 @@ theorem Inv.ofCore {s s1 s' : IState} {k : Nat} {st ne : Bool} {L : Nat} (hi : I
 /-- the running relation of a state with itself -/
 theorem Inv.rel {s : IState} (h : Inv s) (st : Bool) (hst : st = true → measure s < U64 - 1) :
     Rel 0 st false (clen s.mem) s s :=
-  { code := rfl, origLen := rfl, jt := rfl, isEof := rfl, isEofInit := rfl, spec := rfl, env := rfl, input := rfl,
-    ck := rfl, cks := rfl, stack := h.stack, memWF := h.memWF, memCk := h.memCk, memL := Nat.le_refl _, grow := Nat.le_refl _,
+  { code := rfl, origLen := rfl, jt := rfl, eofc := rfl, isEof := rfl, isEofInit := rfl, spec := rfl, env := rfl,
+    input := rfl, ck := rfl, cks := rfl, stack := h.stack, memWF := h.memWF, memCk := h.memCk, memL := Nat.le_refl _, grow := Nat.le_refl _,
     rdLen := h.rdLen, inLen := h.inLen, m0 := h.meas, meas := Nat.le_of_eq (Nat.add_zero _),
     strict := hst, safe := h.safe, nonempty := fun e => (by cases e), pc := rfl }
 
@@ -153,6 +165,8 @@ structure ChildOk (a : Action) (c : ChildResult) : Prop where
   gas : c.gasRemaining ≤ a.gasLimit
   notFatal : c.result ≠ .FatalExternalError
   outLen : c.output.length ≤ Memory.ISIZE_MAX
+  /-- an EOFCREATE child that ended in `ReturnContract` carries the created address (`expect("EOF Address")`) -/
+  addr : ∀ i, a = .eofCreate i → c.result = .ReturnContract → c.address ≠ none
 
 /-- invariant, a bound on the measure, same code as `s` -/
 def Mid (B : Nat) (s x : IState) : Prop := Inv x ∧ measure x ≤ B ∧ x.code = s.code ∧ x.origLen = s.origLen
@@ -293,12 +307,53 @@ theorem insertCreate_sat {s : IState} {B gl : Nat} (hi : Inv s) (hB1 : measure s
       exact sat_conv (mid_push hmid1 (by omega) _) (fun x hx => by omega)
         (fun _ x hq => ⟨hq.1, by have := hq.2.1; omega, hq.2.2.1, hq.2.2.2⟩)
 
+theorem insertEofCreate_sat {s : IState} {B gl : Nat} (hi : Inv s) (hB1 : measure s + gl ≤ B) (hB2 : B ≤ U64 - 2)
+    (c : ChildResult) (hg : c.gasRemaining ≤ gl) (hnf : c.result ≠ .FatalExternalError)
+    (hol : c.output.length ≤ Memory.ISIZE_MAX) (haddr : c.result = .ReturnContract → c.address ≠ none) :
+    Exec.Sat (insertEofCreateOutcome c s) (fun x => measure x ≤ B) (fun _ x => Mid B s x) := by
+  unfold insertEofCreateOutcome
+  refine sat_bind (modifyS_sat _ s) ?_
+  rintro _ s1 rfl
+  have hi1 : Inv { s with returnData := if c.result = .Revert then c.output else [] } :=
+    hi.setReturnData _ (by split <;> simp [hol])
+  have hm1 : measure { s with returnData := if c.result = .Revert then c.output else [] } = measure s := rfl
+  have hmid1 : Mid (B - gl) s { s with returnData := if c.result = .Revert then c.output else [] } :=
+    ⟨hi1, by rw [hm1]; omega, rfl, rfl⟩
+  by_cases hok : c.result = .ReturnContract
+  · rw [if_pos hok]
+    cases ha : c.address with
+    | none => exact absurd ha (haddr hok)
+    | some a =>
+      simp only []
+      refine sat_bind (sat_conv (mid_push hmid1 (by omega) _) (fun x hx => by omega) (fun _ _ hq => hq)) ?_
+      intro _ s2 h2
+      refine sat_conv (modifyS_sat (H := fun x => measure x ≤ B) _ s2) (fun _ hx => hx) ?_
+      rintro _ s3 rfl
+      obtain ⟨hi3, hm3⟩ := h2.1.gasBack
+        (Gas.recordRefund (Gas.eraseCost s2.gas c.gasRemaining) c.gasRefunded) c.gasRemaining rfl
+        (by have := h2.2.1; omega)
+      exact ⟨hi3, by rw [hm3]; have := h2.2.1; omega, h2.2.2.1, h2.2.2.2⟩
+  · rw [if_neg hok]
+    by_cases hrev : c.result.isRevert = true
+    · rw [if_pos hrev]
+      refine sat_bind (sat_conv (mid_push hmid1 (by omega) _) (fun x hx => by omega) (fun _ _ hq => hq)) ?_
+      intro _ s2 h2
+      refine sat_conv (modifyS_sat (H := fun x => measure x ≤ B) _ s2) (fun _ hx => hx) ?_
+      rintro _ s3 rfl
+      obtain ⟨hi3, hm3⟩ := h2.1.gasBack (Gas.eraseCost s2.gas c.gasRemaining) c.gasRemaining rfl
+        (by have := h2.2.1; omega)
+      exact ⟨hi3, by rw [hm3]; have := h2.2.1; omega, h2.2.2.1, h2.2.2.2⟩
+    · rw [if_neg hrev, if_neg hnf]
+      exact sat_conv (mid_push hmid1 (by omega) _) (fun x hx => by omega)
+        (fun _ x hq => ⟨hq.1, by have := hq.2.1; omega, hq.2.2.1, hq.2.2.2⟩)
+
 theorem insertOutcome_sat {s : IState} {B : Nat} (a : Action) (c : ChildResult) (hi : Inv s)
     (hB1 : measure s + a.gasLimit ≤ B) (hB2 : B ≤ U64 - 2) (hret : RetOk a (clen s.mem)) (hc : ChildOk a c) :
     Exec.Sat (insertOutcome a c s) (fun x => measure x ≤ B) (fun _ x => Mid B s x) := by
   cases a with
   | call i => exact insertCall_sat hi hB1 hB2 i.retStart i.retEnd c hret hc.gas hc.notFatal hc.outLen
   | create i => exact insertCreate_sat hi hB1 hB2 c hc.gas hc.notFatal hc.outLen
+  | eofCreate i => exact insertEofCreate_sat hi hB1 hB2 c hc.gas hc.notFatal hc.outLen (hc.addr i rfl)
 
 /-! ## the loop -/
 
